@@ -1005,3 +1005,47 @@ mod tests {
         );
     }
 }
+
+/// Verification hooks (feature `verif-hooks`): hand one BMP message to
+/// `process_msg` the way `read_from_router` does, and read the phase of the
+/// connection's state machine. Add-only.
+#[cfg(feature = "verif-hooks")]
+impl RouterHandler {
+    pub async fn verif_process_msg(
+        &self,
+        router_addr: SocketAddr,
+        ingress_id: IngressId,
+        msg: Message<Bytes>,
+    ) -> Result<(), String> {
+        // the connection level provenance of `read_from_router`
+        let provenance = Provenance::for_bmp(
+            ingress_id,
+            router_addr.ip(),
+            Asn::from_u32(0),
+            router_addr.ip(),
+            [0; 9],
+            PeerRibType::InPre,
+        );
+        self.process_msg(
+            std::time::Instant::now(),
+            router_addr,
+            ingress_id,
+            msg,
+            provenance,
+            None,
+        )
+        .await
+        .map_err(|(_, err)| err)
+    }
+
+    /// 0 initiating, 1 dumping, 2 updating, 3 terminated, 4 aborted
+    pub async fn verif_phase(&self) -> u8 {
+        match self.state_machine.lock().await.as_ref() {
+            Some(BmpState::Initiating(_)) => 0,
+            Some(BmpState::Dumping(_)) => 1,
+            Some(BmpState::Updating(_)) => 2,
+            Some(BmpState::Terminated(_)) => 3,
+            _ => 4,
+        }
+    }
+}
